@@ -368,6 +368,15 @@ Goal forall (uc : unicode) (cfg : sc_config) (pd : parsed) (text : str),
                     (List.length (p_aliases pd) + List.length (p_structs pd) + List.length (p_enums pd) <= n)%nat.
 Proof. exact Props.C10.C10_grammar_scala_classes. Qed.
 Print Assumptions Props.C10.C10_grammar_scala_classes.
+Goal forall (uc : unicode) (cfg : sc_config) (pd : parsed) (text : str),
+    Proofs.C10_SC.c10_sc_cfg_ok cfg = true -> Proofs.C10_SCGrammarFile.c10_scg_cfg_simple cfg = true -> dom_C10 CSC pd = true ->
+    known_C10 CSC (sc_package cfg) pd = [] -> known_C10_sc_grammar (sc_package cfg) pd = [] ->
+    Proofs.C10_SCGrammarFile.c10_scg_overrides_simple pd = true ->
+    sc_generate uc cfg pd = Ok text ->
+    exists n : nat, c10_sc_recognise text = Some n /\
+                    (List.length (p_aliases pd) + List.length (p_structs pd) + List.length (p_enums pd) <= n)%nat.
+Proof. exact Props.C10.C10_grammar_scala_simple. Qed.
+Print Assumptions Props.C10.C10_grammar_scala_simple.
 Goal Proofs.C10_SC.c10_sc_cfg_ok Proofs.C10_SCGrammarFile.g_cfg = true /\ Proofs.C10_SCGrammarFile.c10_scg_cfg_ok Proofs.C10_SCGrammarFile.g_cfg /\
   dom_C10 CSC Proofs.C10_SCGrammarFile.g_prog = true /\ Proofs.C10_SCGrammarFile.c10_scg_dom Proofs.C10_SCGrammarFile.g_prog /\
   Proofs.C10_SCGrammarFile.c10_scg_toplevel_ok Proofs.C10_SCGrammarFile.g_cfg Proofs.C10_SCGrammarFile.g_prog /\
